@@ -413,6 +413,17 @@ func ExtractConfirmationsFromViewChangeMessages(vcms []*ViewChangeMessage) []*pr
 				View:        proof.PrepareBlockRef().View(),
 				BlockHash:   proof.PrepareBlockRef().BlockHash(),
 			}
+			// parts that are absent from the signed proof must stay absent, or the re-encoded header
+			// differs from the bytes the voter signed
+			if len(proof.RawPreprepareBlockRef()) == 0 {
+				ppBlockRefBuilder = nil
+			}
+			if len(proof.RawPreprepareSender()) == 0 {
+				ppSender = nil
+			}
+			if len(proof.RawPrepareBlockRef()) == 0 {
+				pBlockRef = nil
+			}
 			pSendersIter := proof.PrepareSendersIterator()
 			pSenders := make([]*protocol.SenderSignatureBuilder, 0, 1)
 
